@@ -190,7 +190,9 @@ func c06Handwritten() []string {
 		"a := [\n    1 // one\n    2\n\n\n    // comment\n    3\n]\nprint a\nm := {\n    a: 1 // one\n    b: 2\n\n    // c\n    c: 3\n}\nprint m\n",
 		"a := [ // first\n    1 2\n    3 ]\nprint a\nb := [1\n    2]\nprint b\nc := [\n]\nprint c\nd := {\n}\nprint d\ne := [ // only comment\n]\nprint e\n",
 		"if true // c1\n    print 1\nelse if false // c2\n    print 2\nelse // c3\n    print 3\nend // c4\nwhile false // w\n    print 4\nend // we\nfor i := range 1 // f\n    print i\nend // fe\n",
-		"func f:num a:num b:[]string c:{}any... // sig\n    return a // r\nend\non key k:string // h\n    print k\nend\nprint (f 1 []) (f 1 [] {}) // call\n",
+		"func f:num a:num b:[]string c:{}any // sig\n    print b c // use\n    return a // r\nend\non key k:string // h\n    print k\nend\nprint (f 1 [] {}) // call\n",
+		"func v:num c:{}any... // variadic sig\n    return (len c) // r\nend\nfunc w   n:num...\n    print   n\nend\nfunc   u:[]any  a:any...\n    return a\nend\nprint (v) (v {}) (v {} {a:1}) (u 1 \"a\" [])\nw\nw 1   2\n",
+		"a := [ // first\n    // second\n    1\n]\nb := [\n    // only\n]\nc := { // c1\n    // c2\n    k: 1\n}\nd := [ // x\n    1 2 // y\n    // z\n]\nprint a b c d\n",
 		"x := 1\nprint x+1 x-1 -x (x + 1) (x - -x) [x x+1] {a:x b:-x}\nprint x*2+1 (x*(2+1)) !(x == 1) (x < 2 and x > 0 or true)\ns := \"a\"\nprint s[0] s[0:1] s[:1] s[1:] s[:] \"a\"[0] [1 2][1:]\n",
 		"x:any\nx = 1\nprint x.(num) (x.(num) + 1)\nm := {a:{b:[1 2]}}\nprint m.a.b[0] m[\"a\"][\"b\"][1]\nm.a.b[0] = 3\narr:[]{}num\narr = [{a:1}]\narr[0].a = 2\nprint arr\n",
 		"print \"tab\\there\" \"quote\\\"q\" \"back\\\\slash\" \"nl\\nx\" \"é日本🙂\"\nprint 1.50 007 1000000 0.1\n",
@@ -202,7 +204,7 @@ func c06Handwritten() []string {
 		"\n",
 		"print 1",
 		"for i := range 1 10 2\n    for j := range i\n        if i > j\n            while false\n                print i j\n            end\n        end\n    end\nend\n",
-		"m := {a:1 b:{c:[1 {d:2}]} \"key with space\":3 if:4}\nprint m[\"key with space\"] m.if\nfor k := range m\n    print k\nend\n",
+		"m := {a:1 b:{c:[1 {d:2}]} if:4 end:5 for:6}\nm[\"key with space\"] = 3\nprint m[\"key with space\"] m.if m.end m[\"for\"]\nfor k := range m\n    print k\nend\n",
 	}
 }
 
@@ -519,6 +521,11 @@ func RunC06(d *Driver) *Report {
 					k++
 				}
 			}
+		}
+	}
+	for _, h := range c06Handwritten() {
+		if p, perr, _ := ParseSrc(h); p == nil {
+			r.Disagree(Case{Stream: "base", Input: h, Real: "rejected: " + perr, Note: "harness program should be accepted"})
 		}
 	}
 	for i, b := range bases {
